@@ -71,12 +71,14 @@ func main() {
 	if len(p.Fuzz) > 0 {
 		if err := srv.RunFuzz(ctx, p.Fuzz, log); err != nil {
 			fmt.Fprintln(os.Stderr, "fuzz:", err)
-			os.Exit(2)
+			fmt.Fprintln(os.Stderr, srv.ExternalStderr())
+			os.Exit(4) // the server stopped answering (exit 2 is what a Go panic of this very process gives)
 		}
 	}
 	if p.Storm != nil {
 		if err := srv.RunStorm(ctx, p.Storm.Msgs, p.Storm.Workers, p.Storm.Generates, log); err != nil {
 			fmt.Fprintln(os.Stderr, "storm:", err)
+			fmt.Fprintln(os.Stderr, srv.ExternalStderr())
 			os.Exit(3)
 		}
 	}
